@@ -176,12 +176,12 @@ func genC02(tier, out string, sum *Summary) {
 		{"find_first(e, 'a')", nil}, {"find_first(s, '')", nil}, {"find_last(s, 'é')", json.Number("1")},
 		{"replace(s, 'a', 'X', `1.5`)", "!CInvalidValue"}, {"replace(s, 'a', 'X', `1`)", "Xébcab"}, {"replace(s, 'a', 'X', `0`)", "aébcab"}, {"replace(s, 'a', 'X')", "XébcXb"}, {"replace(s, 'a', 'X', `2.0`)", "XébcXb"},
 		{"from_items([['a', `1`], ['b', `2`]])", map[string]any{"a": json.Number("1"), "b": json.Number("2")}}, {"from_items([['a', `1`], ['a', `2`]])", map[string]any{"a": json.Number("2")}},
-		{"from_items([['a']])", "!CInvalidValue"}, {"from_items([[`1`, `2`]])", "!CInvalidValue"}, {"from_items([[null, `2`]])", "!CInvalidValue"}, {"from_items([`1`])", "!CInvalidType"}, {"from_items([])", map[string]any{}},
+		{"from_items([['a']])", "!CInvalidValue"}, {"from_items([[`1`, `2`]])", "!CInvalidValue"}, {"from_items([[null, `2`]])", "!CInvalidValue"}, {"from_items([`1`])", "!CInvalidType"}, {"from_items(`[]`)", map[string]any{}},
 		{"trim(' x ')", "x"}, {"trim('xxaxx', 'x')", "a"}, {"trim_left('xxaxx', 'x')", "axx"}, {"trim_right('xxaxx', 'x')", "xxa"}, {"trim(' a ', '')", "a"},
 		{"to_number('3.0')", json.Number("3")}, {"to_number('abc')", nil}, {"to_number('null')", nil}, {"to_number('+1')", nil}, {"to_number('.5')", nil}, {"to_number('5.')", nil}, {"to_number(' 1')", nil}, {"to_number('1e2')", json.Number("100")}, {"to_number(`true`)", nil}, {"to_number(`2`)", json.Number("2")},
-		{"avg([])", nil}, {"sum([])", json.Number("0")}, {"max([])", nil}, {"min([])", nil}, {"sort([])", []any{}}, {"reverse([])", []any{}}, {"join(',', [])", ""}, {"merge({a: `1`}, {a: `2`, b: `3`})", map[string]any{"a": json.Number("2"), "b": json.Number("3")}},
+		{"avg(`[]`)", nil}, {"sum(`[]`)", json.Number("0")}, {"max(`[]`)", nil}, {"min(`[]`)", nil}, {"sort(`[]`)", []any{}}, {"reverse(`[]`)", []any{}}, {"join(',', `[]`)", ""}, {"merge({a: `1`}, {a: `2`, b: `3`})", map[string]any{"a": json.Number("2"), "b": json.Number("3")}},
 		{"zip([`1`, `2`], ['a'])", []any{[]any{json.Number("1"), "a"}}}, {"not_null(null, `false`, `1`)", false}, {"not_null(null, null)", nil},
-		{"map(&n, [{n: `1`}, {}])", []any{json.Number("1"), nil}}, {"let $v = `10` in map(&[@, $v], [`1`])", []any{[]any{json.Number("1"), json.Number("10")}}},
+		{"map(&n, [{n: `1`}, `{}`])", []any{json.Number("1"), nil}}, {"let $v = `10` in map(&[@, $v], [`1`])", []any{[]any{json.Number("1"), json.Number("10")}}},
 		{"let $v = `1` in sort_by([{k: `2`}, {k: `1`}], &(k * $v))[0].k", json.Number("1")}, {"max_by([{k: 'b'}, {k: 'c'}, {k: 'a'}], &k).k", "c"},
 		{"group_by([{t: 'x', i: `1`}, {t: 'y', i: `2`}, {t: 'x', i: `3`}], &t)", map[string]any{"x": []any{map[string]any{"t": "x", "i": json.Number("1")}, map[string]any{"t": "x", "i": json.Number("3")}}, "y": []any{map[string]any{"t": "y", "i": json.Number("2")}}}},
 		{"abs(`-2.5`)", json.Number("2.5")}, {"ceil(`1.2`)", json.Number("2")}, {"floor(`-1.2`)", json.Number("-2")}, {"ceil(`-0.5`)", json.Number("0")}, {"avg([`1`, `2`])", json.Number("1.5")},
